@@ -18,7 +18,7 @@ use vh::wire::{self, Fti};
 #[global_allocator]
 static GLOBAL: alloc::Counting = alloc::Counting;
 
-const CLASSES: [&str; 12] = ["tiny", "short", "subst", "field_fti", "field_fti_any", "field_misc", "fdtxml", "fdt_oti", "fdt_id_reuse", "budget", "long_symbol", "sequence"];
+const CLASSES: [&str; 13] = ["tiny", "short", "subst", "field_fti", "field_fti_any", "field_misc", "fdtxml", "fdt_oti", "fdt_id_reuse", "budget", "long_symbol", "toi_reuse_after_error", "sequence"];
 
 struct World {
     seed: u64,
@@ -42,6 +42,7 @@ fn class_size(w: &World, class: &str) -> u64 {
         "fdt_id_reuse" => if w.thorough { 6000 } else { 320 },
         "budget" => if w.thorough { 120 } else { 30 },
         "long_symbol" => if w.thorough { 96 } else { 24 },
+        "toi_reuse_after_error" => w.corpus.len() as u64 * 6,
         "sequence" => if w.thorough { 1_500_000 } else { 6000 },
         _ => 0,
     }
@@ -547,6 +548,60 @@ fn gen_seq(w: &World, class: &str, k: u64) -> Option<(Value, u64, Vec<Vec<u8>>)>
         // one datagram of a block carries a payload far LONGER than the announced symbol size (extended / forged), the
         // other K-1 symbols of the block are honest: what the receiver allocates when the block completes must follow what
         // was received and announced (K x E), not the one long payload times K
+        // one hostile datagram makes an object fail (the receiver remembers two failed objects), then the complete valid
+        // session for the SAME TSI and TOI is pushed (a sender that starts again, the next carousel round): it is delivered
+        "toi_reuse_after_error" => {
+            let c = &w.corpus[(k / 6) as usize];
+            let v = k % 6;
+            let (fi, fp) = first_obj_pkt(c);
+            let toi = fp.toi();
+            let oi = c.em.obj_index_of(toi)?;
+            let fdt: Vec<Vec<u8>> = c.em.stream.iter().filter(|p| p.toi() == 0).map(|p| p.bytes.clone()).collect();
+            let mut seq = vec![expect_marker(c.em.spec.tsi, toi, &c.em.objs[oi].data)];
+            let mut r = Rebuild::from(fp);
+            let what;
+            match v {
+                0 | 1 => {
+                    // a copy of the first data packet with the close-object flag set (before / after the FDT)
+                    r.lct.b = true;
+                    if v == 1 {
+                        seq.extend(fdt.clone());
+                    }
+                    seq.push(r.encode());
+                    what = "first data packet with the close-object flag";
+                }
+                2 | 3 => {
+                    // a data packet whose EXT_FTI is absurd (transfer length 2^48-1, block length 2^32-1)
+                    let f = Fti { fec: obj_fec(c), l: (1u64 << 48) - 1, e: 1400, b: u32::MAX, max_n: Some(u32::MAX), instance: Some(0), z: Some(255), n: Some(1), al: Some(4), m: Some(8), g: Some(1) };
+                    r.set_ext(wire::HET_FTI, Some(wire::ext_fti(&f)));
+                    if v == 3 {
+                        seq.extend(fdt.clone());
+                    }
+                    seq.push(r.encode());
+                    what = "data packet with an absurd EXT_FTI";
+                }
+                _ => {
+                    // after the FDT: a data packet naming a source block far outside the object / an oversized symbol
+                    seq.extend(fdt.clone());
+                    if v == 4 {
+                        r.pid = wire::payload_id(obj_fec(c), 60_000, 0, 3, 8);
+                        if obj_fec(c) == 129 {
+                            r.pid[0..4].copy_from_slice(&0x00FF_FFFFu32.to_be_bytes());
+                        }
+                        what = "data packet naming a block far outside the object";
+                    } else {
+                        r.payload = rng.bytes(9000);
+                        r.lct.b = true;
+                        what = "oversized symbol with the close-object flag";
+                    }
+                    seq.push(r.encode());
+                }
+            }
+            let _ = fi;
+            // the complete valid session
+            seq.extend(session_bytes(c));
+            Some((json!({"class": "toi_reuse_after_error", "session": c.name, "hostile": what, "variant": v}), c.em.spec.tsi, seq))
+        }
         "long_symbol" => {
             let fec = [0u8, 0, 5, 129][(k % 4) as usize];
             let kk = [512usize, 2048, 255, 255][(k % 4) as usize];
